@@ -119,6 +119,15 @@ var c16Bad = []string{
 	"put $probe:x%d",      // $probe is not a namespace ... resolved statically? (either way)
 	"tmp probe = MK%d",    // static error at top level only; valid inside a function
 	"c16undefined%d MK%d", // static error only under `pragma unknown-command = disallow`
+	// names in modules that are available but (unless an earlier program did
+	// `use`) not imported: a command head is an external command under the
+	// default pragma, a variable / function value / lvalue is a static error
+	"math:c16f%d MK%d; put $math:pi",
+	"put $re:x%d",
+	"re:c16g%d MK%d; set re:y%d = MK%d",
+	"str:c16h%d MK%d; put $str:join~",
+	"put $math:e; math:c16k%d MK%d",
+	"path:c16p%d MK%d; nop $path:x%d $path:y%d",
 }
 
 func c16Names(ref, n int, prefix string) string {
